@@ -40,6 +40,10 @@ type access struct {
 type varState struct {
 	lastWrite *access
 	reads     map[*G]*access
+	// keep holds the monitored object itself: while the monitor remembers
+	// accesses to an address, the object must not be collected, or a new object
+	// allocated at the same address would inherit them (a false report).
+	keep any
 }
 
 type hbState struct {
@@ -129,7 +133,7 @@ func (s *Sim) hbRelease(g *G, obj any) {
 	g.vc[g] = g.epoch
 }
 
-func (s *Sim) hbAccess(g *G, site string, key any, write bool) {
+func (s *Sim) hbAccess(g *G, site string, key any, write bool, keep any) {
 	if g == nil {
 		return
 	}
@@ -139,7 +143,7 @@ func (s *Sim) hbAccess(g *G, site string, key any, write bool) {
 	hb.Checked++
 	vs := hb.vars[key]
 	if vs == nil {
-		vs = &varState{reads: map[*G]*access{}}
+		vs = &varState{reads: map[*G]*access{}, keep: keep}
 		hb.vars[key] = vs
 	}
 	ordered := func(a *access) bool { return a.g == g || g.vc[a.g] >= a.epoch }
@@ -183,7 +187,7 @@ func Read(site string, key any) {
 	if s == nil || s.HB == nil {
 		return
 	}
-	s.hbAccess(s.self(), site, objKey(key), false)
+	s.hbAccess(s.self(), site, objKey(key), false, key)
 }
 
 // Write reports a write of designated shared state identified by key.
@@ -192,5 +196,27 @@ func Write(site string, key any) {
 	if s == nil || s.HB == nil {
 		return
 	}
-	s.hbAccess(s.self(), site, objKey(key), true)
+	s.hbAccess(s.self(), site, objKey(key), true, key)
+}
+
+// ReadElems reports a read of every element of a designated slice (copy,
+// append(x, s...)); WriteElems a write of every element.
+func ReadElems(site string, slice any) { elems(site, slice, false) }
+
+func WriteElems(site string, slice any) { elems(site, slice, true) }
+
+func elems(site string, slice any, write bool) {
+	s := cur
+	if s == nil || s.HB == nil {
+		return
+	}
+	v := reflect.ValueOf(slice)
+	if v.Kind() != reflect.Slice {
+		return
+	}
+	g := s.self()
+	for i := 0; i < v.Len(); i++ {
+		p := v.Index(i).Addr().Interface()
+		s.hbAccess(g, site, objKey(p), write, p)
+	}
 }
